@@ -1,3 +1,201 @@
 package main
 
-func (g *gen) stream7(name string, n int) bool { return false }
+import "fmt"
+
+func (g *gen) stream7(name string, n int) bool {
+	switch name {
+	case "uri-exh":
+		g.uriExhaustive(n)
+	case "uri-grammar":
+		g.uriGrammar(n)
+	case "uri-std":
+		g.uriStd(n)
+	case "uri-dial":
+		g.uriDial()
+	default:
+		return g.stream8(name, n)
+	}
+	return true
+}
+
+var uriAlphabet = []byte("a1:[]?=&/%.+-#;@ tu\x00")
+var schemes = []string{"stun", "stuns", "turn", "turns"}
+
+// every string over the 20-symbol alphabet up to length n after each scheme prefix (and a few non-scheme prefixes)
+func (g *gen) uriExhaustive(n int) {
+	al := []byte("a1:[]?=&/%.+-#;@ tu")
+	al = append(al, 0x00)
+	cnt := 0
+	prefixes := []string{"stun:", "stuns:", "turn:", "turns:", "STUN:", "", "http:", "stun", ":"}
+	var rec func(cur []byte, depth int)
+	emit := func(s []byte) {
+		for _, p := range prefixes {
+			if p != "stun:" && p != "turns:" && len(s) > n-1 && len(s) > 2 {
+				continue // the long tail only after two representative prefixes
+			}
+			g.caseMark("uri-exh", cnt)
+			cnt++
+			full := append([]byte(p), s...)
+			g.emit("URI parse %s", showHex(full))
+			g.emit("URI roundtrip %s", showHex(full))
+		}
+	}
+	rec = func(cur []byte, depth int) {
+		emit(cur)
+		if depth == n {
+			return
+		}
+		for _, c := range al {
+			rec(append(append([]byte{}, cur...), c), depth+1)
+		}
+	}
+	rec(nil, 0)
+}
+
+func (g *gen) uriHost() string {
+	switch g.r.intn(8) {
+	case 0:
+		return "example.org"
+	case 1:
+		return fmt.Sprintf("%d.%d.%d.%d", g.r.intn(256), g.r.intn(256), g.r.intn(256), g.r.intn(256))
+	case 2:
+		return "[::1]"
+	case 3:
+		return "[2001:db8::" + fmt.Sprintf("%x", g.r.intn(65536)) + "]"
+	case 4:
+		return "[fe80::1%25eth0]"
+	case 5:
+		return "[" + string(g.randFrom("a1:./%", 1+g.r.intn(5))) + "]"
+	case 6:
+		return string(g.randFrom("ab1.-_~%/", 1+g.r.intn(8)))
+	default:
+		return ""
+	}
+}
+
+func (g *gen) randFrom(al string, n int) []byte {
+	b := make([]byte, n)
+	for i := range b {
+		b[i] = al[g.r.intn(len(al))]
+	}
+	return b
+}
+
+func (g *gen) uriPort() string {
+	switch g.r.intn(12) {
+	case 0:
+		return ""
+	case 1:
+		return ":"
+	case 2:
+		return ":0"
+	case 3:
+		return ":65535"
+	case 4:
+		return ":65536"
+	case 5:
+		return ":99999"
+	case 6:
+		return ":-1"
+	case 7:
+		return ":+5"
+	case 8:
+		return ":00080"
+	case 9:
+		return ":9223372036854775808"
+	case 10:
+		return ":3x"
+	default:
+		return fmt.Sprintf(":%d", g.r.intn(65536))
+	}
+}
+
+func (g *gen) uriQuery() string {
+	switch g.r.intn(14) {
+	case 0, 1, 2:
+		return ""
+	case 3:
+		return "?transport=udp"
+	case 4:
+		return "?transport=tcp"
+	case 5:
+		return "?transport=sctp"
+	case 6:
+		return "?transport=udp&transport=tcp"
+	case 7:
+		return "?transport=tcp&x=1"
+	case 8:
+		return "?x=1"
+	case 9:
+		return "?"
+	case 10:
+		return "?transport="
+	case 11:
+		return "?%74ransport=%75dp"
+	case 12:
+		return "?transport=udp;x"
+	default:
+		return "?transport=TCP"
+	}
+}
+
+// grammar-generated URIs and their mutations
+func (g *gen) uriGrammar(n int) {
+	for i := 0; i < n; i++ {
+		g.caseMark("uri-grammar", i)
+		s := schemes[g.r.intn(4)] + ":" + g.uriHost() + g.uriPort() + g.uriQuery()
+		b := []byte(s)
+		switch g.r.intn(6) {
+		case 0: // mutate one byte
+			if len(b) > 0 {
+				b[g.r.intn(len(b))] = uriAlphabet[g.r.intn(len(uriAlphabet))]
+			}
+		case 1: // insert
+			p := g.r.intn(len(b) + 1)
+			b = append(b[:p], append([]byte{uriAlphabet[g.r.intn(len(uriAlphabet))]}, b[p:]...)...)
+		case 2: // non-ASCII / very long
+			if g.r.chance(1, 2) {
+				b = append(b, 0xc3, 0xa9, 0xff)
+			} else {
+				b = append(b, g.randFrom("a:[]?%", 2000+g.r.intn(3000))...)
+			}
+		case 3: // fragment
+			b = append(b, []byte("#"+string(g.randFrom("a%2g", g.r.intn(4))))...)
+		}
+		g.emit("URI parse %s", showHex(b))
+		g.emit("URI roundtrip %s", showHex(b))
+	}
+}
+
+// all 5x3 scheme/transport combinations of hand-made URI values, IPv4 / IPv6 / name hosts (a name cannot be used with
+// DTLS offline: DialURI resolves it with the system resolver before dialling)
+func (g *gen) uriDial() {
+	hosts := []struct{ h, hint string }{{"127.0.0.1", "ip"}, {"::1", "ip"}, {"stun.example.org", "host"}}
+	cnt := 0
+	for _, h := range hosts {
+		for s := 0; s <= 4; s++ {
+			for p := 0; p <= 2; p++ {
+				if s == 4 && p == 1 && h.hint == "host" {
+					continue
+				}
+				g.caseMark("uri-dial", cnt)
+				cnt++
+				g.emit("URI dial %d %d %s %d %s", s, p, showHex([]byte(h.h)), []int{3478, 5349, 0, 65535}[g.r.intn(4)], h.hint)
+			}
+		}
+	}
+}
+
+// the standard-library fragments, function by function
+func (g *gen) uriStd(n int) {
+	for i := 0; i < n; i++ {
+		g.caseMark("uri-std", i)
+		s := g.randFrom("a1:[]?=&/%.+-#;@ tu", g.r.intn(9))
+		g.emit("URI split %s", showHex(s))
+		g.emit("URI urlparse %s", showHex(append([]byte(schemes[g.r.intn(4)]+":"), s...)))
+		g.emit("URI urlparse %s", showHex(s))
+		g.emit("URI query %s", showHex(g.randFrom("transport=udpc&;%2+5x", g.r.intn(20))))
+		g.emit("URI atoi %s", showHex(g.randFrom("0123456789+-x", g.r.intn(22))))
+		g.emit("URI join %s %s", showHex(g.randFrom("a:[]%.", g.r.intn(6))), showHex(g.randFrom("0123", g.r.intn(4))))
+	}
+}
